@@ -37,7 +37,8 @@ func CheckRecursion(rootTypeName string, rootSchema *ischema.ISchema) error {
 			// Obviously, root type was visited.
 			rootTypeName: {},
 		},
-		path: []string{rootTypeName},
+		path:      []string{rootTypeName},
+		rootTypes: rootSchema.TypesList(),
 	}
 
 	return rc.check(rootSchema.RootNode(), rootSchema.TypesList())
@@ -51,6 +52,15 @@ type recursionChecker struct {
 	// Necessary for building an error message 'cause user should understand where
 	// recursion was found.
 	path []string
+
+	// rootTypes the types registered on the checked schema. A referenced type
+	// that has no entry in the type table of the type that mentions it is
+	// looked up here (types are usually registered on the checked schema only).
+	rootTypes map[string]ischema.Type
+
+	// viaRootTypes counts the types on the current path that were found through
+	// rootTypes.
+	viaRootTypes int
 }
 
 func (c *recursionChecker) check(node ischema.Node, types map[string]ischema.Type) error {
@@ -159,11 +169,23 @@ func (c *recursionChecker) checkMixedValueNode(
 
 func (c *recursionChecker) checkType(typeName string, types map[string]ischema.Type) error {
 	if !c.visit(typeName) {
+		if typeName != c.path[0] && c.viaRootTypes > 0 {
+			// A cycle among other types, seen only because names are now also
+			// resolved through the checked schema's table: it says nothing about
+			// the checked type requiring itself.
+			c.path = c.path[:len(c.path)-1]
+			return nil
+		}
 		return c.createError()
 	}
 	defer c.leave(typeName)
 
-	t := types[typeName]
+	t, ok := types[typeName]
+	if !ok {
+		t = c.rootTypes[typeName]
+		c.viaRootTypes++
+		defer func() { c.viaRootTypes-- }()
+	}
 	if t.Schema == nil {
 		// This might happen if we didn't know anything about this type.
 		// Normally we shouldn't get this situation.
